@@ -90,6 +90,10 @@ pub fn generate(g: &mut Gen, thorough: bool) {
         g.push(op_line("default", &[], &[], &format!("merc lat_ts={ts} ellps={ellps}"), "apply", "F", &data_of(&pts)), "model-merc-lat_ts", true);
         pair(g, "lat_ts", &format!("merc lat_ts={ts} ellps={ellps}"), &format!("merc ellps={ellps}"), &[ts], &pts, "oracle-merc-lat_ts-is-k0");
         pair(g, "same", &format!("merc lat_ts={ts} ellps={ellps}"), &format!("merc lat_ts={} ellps={ellps}", -ts), &[], &pts, "oracle-merc-lat_ts-symmetric");
+        // ... also in the company of the other parameters (the false origin left at zero: it is not scaled)
+        let lat_0 = *g.rng.pick(&[10.0, -33.0, 49.0]);
+        g.push(op_line("default", &[], &[], &format!("merc lat_ts={ts} lat_0={lat_0} lon_0=9 ellps={ellps}"), "apply", "F", &data_of(&pts)), "model-merc-lat_ts", true);
+        pair(g, "lat_ts", &format!("merc lat_ts={ts} lat_0={lat_0} lon_0=9 ellps={ellps}"), &format!("merc lat_0={lat_0} lon_0=9 ellps={ellps}"), &[ts], &pts, "oracle-merc-lat_ts-is-k0-with-lat_0");
         let p1 = *g.rng.pick(&[57.0, -33.0, 20.0, 45.5, -60.0]);
         let l = proj::random(&mut g.rng, "lcc");
         let tail = format!("lon_0={} k_0={} x_0={} y_0={} ellps={}", l.lon_0, l.k_0, l.x_0, l.y_0, l.ellps);
